@@ -50,6 +50,10 @@ func main() {
 	if r.Replayed() {
 		return
 	}
+	checkCensus(r)
+	if os.Getenv("C10_CENSUS_ONLY") != "" {
+		return
+	}
 	generate(r)
 }
 
@@ -102,7 +106,7 @@ func atoi(s string) int {
 }
 
 type op struct {
-	kind  byte     // 'p','d','r','n','m','l','b','s' packets; 'x' purge, 'o' offline, 'u' hunt, 'q' dump
+	kind  byte // 'p','d','r','n','m','l','b','s' packets; 'x' purge, 'o' offline, 'u' hunt, 'q' dump
 	frame []byte
 	keys  [][]byte
 	f     []string // remaining fields of a packet token (locators / oracle)
